@@ -356,7 +356,20 @@ func (g *gen) ifStmt(d int) []stmtText {
 	g.kindHit("if")
 	c := g.condTest(d).s
 	simple := func() string { return g.exprStmtText(g.sideEffectExpr(d - 1)) }
-	switch r.Intn(12) {
+	switch r.Intn(14) {
+	case 12, 13: // if(a){if(b)S} with a non-expression S: the two conditions are merged into a&&b (operand grouping)
+		c2 := g.condTest(d - 1).s
+		if r.Chance(1, 2) {
+			c2 = g.boolExpr(d-1).s + r.Pick("||", "||", "??", "&&", ",") + g.boolExpr(d-1).s
+		}
+		inner := "{" + simple() + ";" + simple() + "}"
+		if r.Chance(1, 3) {
+			inner = "for(;;){" + simple() + ";break}"
+		} else if g.fn != nil && g.fn.isFn && g.fn.inFinally == 0 && r.Chance(1, 3) {
+			inner = "return " + g.sideEffectExpr(d-1).s
+		}
+		g.kindHit("if-nested-merge")
+		return one("if("+c+"){if("+c2+")"+inner+"}", false)
 	case 0: // if(a)b
 		return one("if("+c+")"+simple(), true)
 	case 1: // if(a)b;else c
